@@ -217,6 +217,8 @@ def read_tree(root, skip_asc=True):
             out[os.path.relpath(os.path.join(dp, d), root)] = None
         for f in fns:
             p = os.path.join(dp, f)
+            if os.path.islink(p) and not os.path.exists(p):
+                continue  # a link that leads nowhere is neither a file nor a folder
             with open(p, "rb") as fh:
                 out[os.path.relpath(p, root)] = fh.read()
     return out
